@@ -123,25 +123,27 @@ func checkImplementation(
 	var missing []InterfaceMethod
 
 	// Create index of type's methods
-	typeMethods := make(map[string]TypeMethod)
+	// (an unexported method is identified by its package as well as its name)
+	type methodKey struct{ pkgPath, name string }
+	typeMethods := make(map[methodKey]TypeMethod)
 	for _, method := range typeModel.Methods {
 		// Filter methods based on pointer requirement
 		if requirePointer {
 			// For &Interface, we need pointer receiver methods
 			// (but value receiver methods are also OK per Go spec:
 			// method set of *T includes methods with receiver T or *T)
-			typeMethods[method.Name] = method
+			typeMethods[methodKey{method.PkgPath, method.Name}] = method
 		} else {
 			// For Interface (no &), we need value receiver methods only
 			if !method.ReceiverIsPointer {
-				typeMethods[method.Name] = method
+				typeMethods[methodKey{method.PkgPath, method.Name}] = method
 			}
 		}
 	}
 
 	// Check each interface method
 	for _, ifaceMethod := range iface.Methods {
-		typeMethod, exists := typeMethods[ifaceMethod.Name]
+		typeMethod, exists := typeMethods[methodKey{ifaceMethod.PkgPath, ifaceMethod.Name}]
 		if !exists {
 			missing = append(missing, ifaceMethod)
 			continue
